@@ -9,7 +9,9 @@
    letter: host of the base kept on both sides; (b) the text starts with a Windows drive letter and the host of the
    base is the empty host: parser.rs drops the host of the base, the Standard keeps it - the same when it is empty;
    (c) the same dispatch in the file state itself: a text with NO leading separator that starts with a Windows drive
-   letter ("C|/y", "file:C:/y") against a base with the empty host. *)
+   letter ("C|/y", "file:C:/y") against a base with the empty host;
+   (d) one separator, no drive letter behind it, the first segment of the base path IS a normalized drive letter and the
+   host of the base is the empty host: the Standard carries the segment over, parser.rs starts from "file:///" + it. *)
 From Coq Require Import ZifyBool ZifyN.
 From RU Require Import Base.Prelude Base.Utf8 Base.Utf8Facts Model.AsciiSet Gen.Tables
   Model.PercentEncoding Model.HostT Model.UrlRecord Model.Parser Model.Setters Model.WF Model.Host Model.KnownC08 Model.KnownC01
@@ -796,3 +798,321 @@ Example known_sole_drive :
      | POk u, BDone su => q_href u = [102;105;108;101;58;47;47;47;97;47;67;58;47;120] /\ get_href spec_host_serializer su = [102;105;108;101;58;47;47;47;97;47;120]
      | _, _ => False end.
 Proof. vm_compute. repeat split. Qed.
+
+(* ================= one leading separator, the drive letter of the base carried over ================= *)
+(* the first segment p0 of the base path is a normalized Windows drive letter and the text R1 behind the separator
+   does not start with one: the Standard hands [p0] to the path state and keeps the host of the base; parser.rs
+   starts from "file:///" + p0 and drops the host - the same URL when the host of the base is the empty host *)
+Section ModelCarry.
+Variable dbg : bool.
+Variable hp hpo : list N -> result host.
+Variable hd : host -> list N.
+Variable shp : bool -> list N -> option spec_host.
+Variable shs : spec_host -> list N.
+
+Notation PP hh ps s l := (parse_path dbg CUrlParser STFile hh ps s l).
+Notation loop := (parse_path_loop dbg CUrlParser STFile).
+
+(* a leading separator behind any serialization: an empty segment is finished, the '/' stays *)
+Lemma lead_sep_gen pre ser l : forall c l1 hh, inp_next l = Some (c, l1) -> is_sl c = true ->
+  loop (nlen pre) l ser (nlen ser) [] hh = loop (nlen pre) l1 (ser ++ [47]) (nlen (ser ++ [47])) [] hh.
+Proof.
+  induction l as [|c0 r IH]; intros c l1 hh En Hs; [discriminate En|].
+  destruct (is_tnl c0) eqn:Et.
+  - rewrite inp_next_tnl in En by exact Et. rewrite (loop_cons_tnl_f pre dbg c0 r _ _ [] hh Et). cbn [push_pending].
+    exact (IH c l1 hh En Hs).
+  - rewrite inp_next_cons in En by exact Et. inversion En; subst c0 l1.
+    rewrite (loop_cons_sep_f pre dbg c r _ _ [] hh Et Hs). cbn [push_pending].
+    unfold finish_segment.
+    assert (slice_o (ser ++ [47]) (nlen ser) (nlen (ser ++ [47]) - 1) = Some []) as ->.
+    { rewrite nlen_app. replace (nlen ser + nlen [47] - 1) with (nlen ser + nlen (@nil N)) by (unfold nlen; cbn [length]; lia).
+      exact (slice_mid ser [] [47]). }
+    cbn [of_option pbind is_double_dot is_single_dot st_is_file andb].
+    replace (is_wdl []) with false by reflexivity. rewrite andb_false_r. cbn [pbind]. reflexivity.
+Qed.
+
+(* loop_from_segments_f (Proofs/C01_EqFileBase.v) for any has_host flag *)
+Lemma loop_from_segments_g pre r P0 hh : usv_list r -> forallb no_slash P0 = true ->
+  fpath_ok hh (ntnl r) P0 [] = true ->
+  let P1 := fst (spath_f (ntnl r) P0 []) in
+  strip_stable P1 = true ->
+  PP hh (nlen pre) (Bs pre P0) r = POk (pre ++ flat P1, hh, cbb_rest r)
+  /\ snd (spath_f (ntnl r) P0 []) = ntnl (cbb_rest r)
+  /\ forallb no_slash P1 = true.
+Proof.
+  intros Hur Hns Hok P1 Hst.
+  assert (pend_ok []) as Hp0 by (split; [constructor | reflexivity]).
+  destruct (loop_exact_f pre dbg r P0 [] [] hh Hur Hp0 Hns eq_refl Hok) as (segs & last & Hloop & Hfst & Hsnd).
+  cbn [app rev utf8_encode flat_map encode] in Hfst, Hsnd.
+  rewrite app_nil_r in Hloop.
+  assert (forallb no_slash P1 = true) as Hns1 by (unfold P1; apply spath_f_no_slash; [exact Hns | reflexivity]).
+  split; [|split; [exact Hsnd | exact Hns1]].
+  unfold parse_path. rewrite Hloop. rewrite C01_EqFile.Bs_flat, <- Hfst. fold P1.
+  rewrite fixup_flat by exact Hns1. apply strip_f_stable in Hst. rewrite Hst. reflexivity.
+Qed.
+
+Lemma nwdl_facts p0 : is_normalized_windows_drive_letter p0 = true -> no_slash p0 = true /\ no_qh p0 = true.
+Proof.
+  destruct p0 as [|a [|b [|c r]]]; try discriminate. cbn [is_normalized_windows_drive_letter]. intros H.
+  apply andb_true_iff in H. destruct H as [Ha Hb]. unfold is_alpha, is_upper, is_lower in Ha.
+  unfold no_slash, no_qh. cbn [forallb]. split; lia.
+Qed.
+
+Theorem parse_file_one_carry b sb sh l c1 l1 p0 Pr :
+  related dbg shs b sb -> has_opaque_path sb = false -> su_scheme sb = str_file -> su_host sb = Some sh -> shs sh = [] ->
+  Whatwg.path_segments sb = p0 :: Pr -> is_normalized_windows_drive_letter p0 = true ->
+  usv_list l -> inp_next l = Some (c1, l1) -> is_sl c1 = true -> no_sl_head (ntnl l1) = true ->
+  starts_with_windows_drive_letter (ntnl l1) = false ->
+  fpath_ok false (ntnl l1) [p0] [] = true -> strip_stable (fst (spath_f (ntnl l1) [p0] [])) = true ->
+  let su := file_tail (fkeep sb [p0]) (spath_f (ntnl l1) [p0] []) in
+  exists u, oob (U32_MAX_P < nlen (ser u)) (parse_file dbg hp hd None CUrlParser STFile (Some b) l) u
+            /\ related dbg shs u su /\ spec_base_ok su = true.
+Proof.
+  intros R Hop Hs Eh Hsh EP Hnw Hu En1 Esl1 Hh Hw Hok Hst su.
+  pose proof (inp_next_usv l c1 l1 Hu En1) as Hu1.
+  destruct (nwdl_facts p0 Hnw) as [Hns0 Hqh0].
+  set (R1 := ntnl l1) in *.
+  assert (forallb no_slash [p0] = true) as HnsP0 by (cbn [forallb]; rewrite Hns0; reflexivity).
+  destruct (loop_from_segments_g s_file_css l1 [p0] false Hu1 HnsP0 Hok Hst) as (Hpp & Hsnd & Hns1).
+  fold R1 in Hpp, Hsnd, Hns1.
+  set (P1 := fst (spath_f R1 [p0] [])) in *. set (T := flat P1) in *.
+  set (rest := cbb_rest l1) in *. set (q := pqf_q STFile rest). set (f := pqf_f rest).
+  assert (usv_list rest) as Hurest by (apply usv_cbb_rest; exact Hu1).
+  assert (forallb C06_WFI.no_qh T = true) as Hqh1.
+  { apply flat_no_qh. apply spath_f_no_qh; [|reflexivity]. cbn [forallb]. rewrite Hqh0. reflexivity. }
+  destruct (rel_valid _ _ _ _ R) as [_ V]. destruct (V Hs) as (Vu & Vp & Vpo).
+  assert (su = spec_auth_url str_file [] [] sh None P1 q f) as ES.
+  { unfold su. rewrite (file_tail_rel_url sb [p0] R1 rest Hs (rel_valid _ _ _ _ R) Hsnd (cbb_rest_head l1)).
+    unfold rel_url, spec_auth_url. rewrite Hs, Vu, Vp, Vpo, Eh. reflexivity. }
+  assert (spec_base_ok su = true) as HBok.
+  { rewrite ES. unfold spec_base_ok, spec_auth_url. cbn [su_scheme Whatwg.path_segments su_path]. rewrite Hns1. reflexivity. }
+  assert (match ntnl rest with [] => True | c :: _ => is_qh c = true end) as Hhead.
+  { pose proof (cbb_rest_head l1) as Hh'. fold rest in Hh'. destruct rest as [|d dr]; [exact I|]. destruct Hh' as [Hh1 Hh2].
+    rewrite ntnl_cons by exact Hh2. exact Hh1. }
+  set (U := auth_url s_file [] [] [] HI_None None T q f).
+  assert (ser U = (s_file_css ++ T) ++ qf_text q f) as EU.
+  { unfold U, auth_url. cbn [ser cred_text port_suffix is_nil andb]. rewrite !app_nil_r. reflexivity. }
+  exists U. split; [|split; [|exact HBok]].
+  - unfold parse_file.
+    assert (inp_split_first l = (Some c1, l1)) as -> by (unfold inp_split_first; rewrite En1; reflexivity).
+    cbv iota beta. rewrite is_sl_model, Esl1.
+    assert (match fst (inp_split_first l1) with Some c => is_slash_or_bslash c | None => false end = false) as Hnext.
+    { unfold inp_split_first. destruct R1 as [|c2 T2] eqn:ER1.
+      - rewrite (inp_next_none l1 ER1). reflexivity.
+      - destruct (inp_next_some l1 c2 T2 ER1) as (l2 & En2 & _ & _). rewrite En2. cbn [no_sl_head] in Hh.
+        apply negb_true_iff in Hh. exact Hh. }
+    destruct (inp_split_first l1) as [nc an]. cbn [fst] in Hnext.
+    rewrite Hnext. rewrite swdl_segment_spec. fold R1. rewrite Hw. cbn [negb].
+    rewrite (base_first_segment_spec dbg shs b sb p0 Pr R Hop EP Hns0). rewrite is_nwdl_agree, Hnw.
+    unfold parse_path. change 7 with (nlen s_file_css).
+    rewrite (lead_sep_gen s_file_css (s_file_css ++ [47] ++ p0) l c1 l1 false En1 Esl1).
+    assert ((s_file_css ++ [47] ++ p0) ++ [47] = Bs s_file_css [p0]) as ->.
+    { unfold Bs, segs_text. cbn [map concat]. rewrite app_nil_r, <- !app_assoc. reflexivity. }
+    unfold parse_path in Hpp. rewrite Hpp. cbn [pbind].
+    eapply oob_bind.
+    { apply (pqf_oob None (U32_MAX_P < nlen (ser U))); [exact Hurest | reflexivity | exact Hhead |].
+      fold q f T. intros Hlt. rewrite EU. exact Hlt. }
+    fold q f T. right. unfold U, auth_url, file_url. cbn [cred_text port_suffix is_nil andb]. rewrite !app_nil_r.
+    change (auth_s0 s_file) with s_file_css. reflexivity.
+  - rewrite ES. apply (related_auth_f dbg shs s_file [] [] [] HI_None sh None P1 q f). constructor.
+    + reflexivity.
+    + reflexivity.
+    + symmetry. exact Hsh.
+    + reflexivity.
+    + reflexivity.
+    + reflexivity.
+    + intros p Hp. discriminate Hp.
+    + exact Hqh1.
+    + apply pqf_q_clean_f. exact Hurest.
+    + repeat split.
+Qed.
+
+End ModelCarry.
+
+(* assembling a class theorem from the two sides *)
+Lemma agree_assemble dbg shs (m : pres url) s su u : s = BDone su ->
+  oob (U32_MAX_P < nlen (ser u)) m u -> related dbg shs u su -> spec_base_ok su = true -> base_shape_ok su = true ->
+  agree_good dbg shs m s /\ (forall su' u', s = BDone su' -> m = POk u' -> full_base dbg shs u' su').
+Proof.
+  intros HS HO Ru Hbo Hshape.
+  assert (agree_good dbg shs m s) as G.
+  { rewrite HS. apply agree_good_intro; [|intros su' E; inversion E; subst su'; exact Hbo].
+    exact (oob_agree dbg shs _ u _ HO Ru). }
+  split; [exact G|]. intros su' u' HS' HM. rewrite HS' in G. rewrite HS in HS'. inversion HS'; subst su'.
+  split; [exact (agree_good_chain dbg shs _ su u' G HM) | exact Hshape].
+Qed.
+
+(* the class: R = the text from the separator on *)
+Definition first_nwdl (P : list (list N)) : bool :=
+  match P with p0 :: _ => is_normalized_windows_drive_letter p0 | [] => false end.
+Definition first_seg (P : list (list N)) : list (list N) := match P with p0 :: _ => [p0] | [] => [] end.
+
+Definition file_one_carry_ok (sb : spec_url) (R : list N) : bool :=
+  negb (has_opaque_path sb) && list_eqb (su_scheme sb) str_file && host_is_empty sb
+  && first_nwdl (Whatwg.path_segments sb)
+  && match R with
+     | c1 :: R1 =>
+         is_sl c1 && no_sl_head R1 && negb (starts_with_windows_drive_letter R1)
+         && fpath_ok false R1 (first_seg (Whatwg.path_segments sb)) []
+         && strip_stable (fst (spath_f R1 (first_seg (Whatwg.path_segments sb)) []))
+     | [] => false
+     end.
+
+Definition in_class_file_rel_one_carry (sb : spec_url) (input : list N) : bool := file_one_carry_ok sb (spec_clean input).
+Definition in_class_file_same_one_carry (sb : spec_url) (input : list N) : bool :=
+  match spec_scheme (spec_clean input) with
+  | Some (sch, R) => list_eqb sch str_file && file_one_carry_ok sb R
+  | None => false
+  end.
+
+Section CarryClass.
+Variable dbg : bool.
+Variable hp hpo : list N -> result host.
+Variable hd : host -> list N.
+Variable shp : bool -> list N -> option spec_host.
+Variable shs : spec_host -> list N.
+Hypothesis Hse : shs SEmpty = [].
+
+Lemma file_one_carry_model b sb l : related dbg shs b sb -> usv_list l ->
+  file_one_carry_ok sb (ntnl l) = true ->
+  exists c1 R1 p0, ntnl l = c1 :: R1 /\ is_sl c1 = true /\ no_sl_head R1 = true
+    /\ has_opaque_path sb = false /\ list_eqb (su_scheme sb) str_file = true /\ one_init sb R1 = [p0]
+    /\ let su := file_tail (fkeep sb [p0]) (spath_f R1 [p0] []) in
+       exists u, oob (U32_MAX_P < nlen (ser u)) (parse_file dbg hp hd None CUrlParser STFile (Some b) l) u
+                 /\ related dbg shs u su /\ spec_base_ok su = true.
+Proof.
+  intros R Hu Hc. unfold file_one_carry_ok in Hc.
+  apply andb_true_iff in Hc. destruct Hc as [Hc Hok]. apply andb_true_iff in Hc. destruct Hc as [Hc Hfirst].
+  apply andb_true_iff in Hc. destruct Hc as [Hc Hhost]. apply andb_true_iff in Hc. destruct Hc as [Hop Hf].
+  apply negb_true_iff in Hop. pose proof Hf as Hsf. apply list_eqb_spec in Hsf.
+  unfold host_is_empty in Hhost. destruct (su_host sb) as [[| | | |]|] eqn:Eh; try discriminate Hhost.
+  unfold first_nwdl in Hfirst. destruct (Whatwg.path_segments sb) as [|p0 Pr] eqn:EP; [discriminate Hfirst|].
+  cbn [first_seg] in Hok.
+  destruct (ntnl l) as [|c1 R1] eqn:El; [discriminate Hok|].
+  apply andb_true_iff in Hok. destruct Hok as [Hok Hst]. apply andb_true_iff in Hok. destruct Hok as [Hok Hfp].
+  apply andb_true_iff in Hok. destruct Hok as [Hok Hw]. apply andb_true_iff in Hok. destruct Hok as [Esl1 Hh].
+  apply negb_true_iff in Hw.
+  exists c1, R1, p0. split; [reflexivity|]. split; [exact Esl1|]. split; [exact Hh|]. split; [exact Hop|]. split; [exact Hf|].
+  split; [unfold one_init; rewrite EP, Hw, Hfirst; reflexivity|].
+  destruct (inp_next_some l c1 R1 El) as (l1 & En1 & Hl1 & _).
+  rewrite <- Hl1 in Hh, Hfp, Hst, Hw |- *.
+  exact (parse_file_one_carry dbg hp hpo hd shp shs b sb SEmpty l c1 l1 p0 Pr R Hop Hsf Eh Hse EP Hfirst Hu En1 Esl1 Hh Hw Hfp Hst).
+Qed.
+
+Theorem class_file_rel_one_carry input b sb : usv_list input -> related dbg shs b sb ->
+  in_class_file_rel_one_carry sb input = true ->
+  agree_good dbg shs (parse_url dbg hp hpo hd None (Some b) input) (spec_basic_url_parse shp input (Some sb))
+  /\ (forall su u, spec_basic_url_parse shp input (Some sb) = BDone su -> parse_url dbg hp hpo hd None (Some b) input = POk u ->
+        full_base dbg shs u su).
+Proof.
+  intros Hu R Hc. unfold in_class_file_rel_one_carry in Hc.
+  rewrite spec_clean_is_ntnl_trim in Hc. set (l := input_new_trim_c0 input) in *.
+  assert (usv_list l) as Hul by exact (usv_trim input Hu).
+  destruct (file_one_carry_model b sb l R Hul Hc) as (c1 & R1 & p0 & El & Esl1 & Hh & Hop & Hf & Hin0 & u & HO & Ru & Hbo).
+  assert (spec_basic_url_parse shp input (Some sb) = BDone (file_tail (fkeep sb [p0]) (spath_f R1 [p0] []))) as HS.
+  { rewrite <- Hin0. apply (spec_file_rel_one shp sb input c1 R1); try assumption.
+    rewrite spec_clean_is_ntnl_trim. exact El. }
+  assert (parse_url dbg hp hpo hd None (Some b) input = parse_file dbg hp hd None CUrlParser STFile (Some b) l) as Epu.
+  { assert ((c1 =? 35) = false) as E35 by (unfold is_sl in Esl1; lia).
+    assert (scheme_type_of (b_scheme b) = STFile) as Hst.
+    { rewrite (rel_sch _ _ _ _ R). apply list_eqb_spec in Hf. rewrite Hf. reflexivity. }
+    exact (parse_url_file_rel dbg hp hpo hd b input c1 R1 (related_not_cbb dbg shs b sb R Hop) Hst El
+             (is_sl_scheme_none c1 R1 Esl1) E35). }
+  rewrite Epu. exact (agree_assemble dbg shs _ _ _ u HS HO Ru Hbo (one_result_shape sb [p0] _)).
+Qed.
+
+Theorem class_file_same_one_carry input b sb : usv_list input -> related dbg shs b sb ->
+  in_class_file_same_one_carry sb input = true ->
+  agree_good dbg shs (parse_url dbg hp hpo hd None (Some b) input) (spec_basic_url_parse shp input (Some sb))
+  /\ (forall su u, spec_basic_url_parse shp input (Some sb) = BDone su -> parse_url dbg hp hpo hd None (Some b) input = POk u ->
+        full_base dbg shs u su).
+Proof.
+  intros Hu R Hc. unfold in_class_file_same_one_carry in Hc.
+  destruct (spec_scheme (spec_clean input)) as [[sch R0]|] eqn:Es; [|discriminate Hc].
+  apply andb_true_iff in Hc. destruct Hc as [Hsch Hc]. apply list_eqb_spec in Hsch. subst sch.
+  pose proof Es as Es'. rewrite spec_clean_is_ntnl_trim in Es'.
+  destruct (spec_scheme_model _ _ _ Es') as (rem & Hps & Hrem).
+  destruct (parse_scheme_suffix _ _ _ _ Hps) as [pre0 Hpre].
+  assert (usv_list rem) as Hur.
+  { pose proof (usv_trim input Hu) as Ht. rewrite Hpre in Ht. apply usv_app in Ht. tauto. }
+  rewrite <- Hrem in Hc.
+  destruct (file_one_carry_model b sb rem R Hur Hc) as (c1 & R1 & p0 & El & Esl1 & Hh & Hop & Hf & Hin0 & u & HO & Ru & Hbo).
+  assert (spec_basic_url_parse shp input (Some sb) = BDone (file_tail (fkeep sb [p0]) (spath_f R1 [p0] []))) as HS.
+  { rewrite <- Hin0. apply (spec_file_same_one shp sb input c1 R1); try assumption.
+    rewrite Es, <- Hrem, El. reflexivity. }
+  assert (parse_url dbg hp hpo hd None (Some b) input = parse_file dbg hp hd None CUrlParser STFile (Some b) rem) as Epu.
+  { unfold parse_url. rewrite Hps. unfold parse_with_scheme. change (to_u32 (nlen str_file)) with (@POk N 4). cbn [pbind].
+    change (scheme_type_of str_file) with STFile. cbv iota beta.
+    apply list_eqb_spec in Hf. rewrite (rel_sch _ _ _ _ R), Hf. change (list_eqb str_file s_file) with true. reflexivity. }
+  rewrite Epu. exact (agree_assemble dbg shs _ _ _ u HS HO Ru Hbo (one_result_shape sb [p0] _)).
+Qed.
+
+End CarryClass.
+
+Theorem class_file_one_carry_model dbg idna : forall input b sb,
+  usv_list input -> full_base dbg spec_host_serializer b sb ->
+  in_class_file_rel_one_carry sb input || in_class_file_same_one_carry sb input = true ->
+  agree_good dbg spec_host_serializer
+    (parse_url dbg (host_parse idna) host_parse_opaque host_display None (Some b) input)
+    (spec_basic_url_parse (spec_host_parser idna) input (Some sb))
+  /\ (forall su u, spec_basic_url_parse (spec_host_parser idna) input (Some sb) = BDone su ->
+        parse_url dbg (host_parse idna) host_parse_opaque host_display None (Some b) input = POk u ->
+        full_base dbg spec_host_serializer u su).
+Proof.
+  intros input b sb Hu [[R _] _] Hc. apply orb_true_iff in Hc. destruct Hc as [Hc|Hc].
+  - exact (class_file_rel_one_carry dbg _ _ _ _ _ eq_refl input b sb Hu R Hc).
+  - exact (class_file_same_one_carry dbg _ _ _ _ _ eq_refl input b sb Hu R Hc).
+Qed.
+
+(* non-vacuity: against the parse result of file:///C:/dir/f the references  /y ,  \..\z?q  (".." behind the sole
+   drive letter: popped on neither side),  file:/a/./b#f  are in the classes (class 1 of Known_C01); both sides give
+   file:///C:/y, file:///C:/z?q, file:///C:/a/b#f *)
+Example class_file_one_carry_nonvacuous :
+  let idna := id_idna in
+  let P base i := parse_url true (host_parse idna) host_parse_opaque host_display None base i in
+  let S sbase i := spec_basic_url_parse (spec_host_parser idna) i sbase in
+  let bt := [102;105;108;101;58;47;47;47;67;58;47;100;105;114;47;102] in
+  match P None bt, S None bt with
+  | POk b, BDone sb =>
+      let ok (cls : spec_url -> list N -> bool) i h :=
+        cls sb i = true /\ known_c01 (Some b) i = 1
+        /\ match P (Some b) i, S (Some sb) i with
+           | POk u, BDone su => q_href u = h /\ api_of_model true u = Some (spec_api_list spec_host_serializer su)
+           | _, _ => False end in
+      ok in_class_file_rel_one_carry [47;121] [102;105;108;101;58;47;47;47;67;58;47;121]
+      /\ ok in_class_file_rel_one_carry [92;46;46;92;122;63;113] [102;105;108;101;58;47;47;47;67;58;47;122;63;113]
+      /\ ok in_class_file_same_one_carry [102;105;108;101;58;47;97;47;46;47;98;35;102] [102;105;108;101;58;47;47;47;67;58;47;97;47;98;35;102]
+  | _, _ => False
+  end.
+Proof. vm_compute. repeat split. Qed.
+
+(* ================= all file-base arms proved beside the assembled statement, one recogniser ================= *)
+(* path-relative (Proofs/C01_EqFileBase.v, C01_EqFileBase2.v), one leading separator (host kept / drive letter behind the
+   separator / drive letter of the base carried over), the drive-letter dispatch without a separator - scheme-less and
+   behind "file:" *)
+Definition in_file_base_arms (sb : spec_url) (input : list N) : bool :=
+  in_class_file_rel_path sb input || in_class_file_same_path sb input
+  || in_class_file_rel_one sb input || in_class_file_same_one sb input
+  || in_class_file_rel_drive sb input || in_class_file_same_drive sb input
+  || in_class_file_rel_one_carry sb input || in_class_file_same_one_carry sb input.
+
+Theorem file_base_arms_model dbg idna : forall input b sb,
+  usv_list input -> full_base dbg spec_host_serializer b sb -> in_file_base_arms sb input = true ->
+  agree_good dbg spec_host_serializer
+    (parse_url dbg (host_parse idna) host_parse_opaque host_display None (Some b) input)
+    (spec_basic_url_parse (spec_host_parser idna) input (Some sb))
+  /\ (forall su u, spec_basic_url_parse (spec_host_parser idna) input (Some sb) = BDone su ->
+        parse_url dbg (host_parse idna) host_parse_opaque host_display None (Some b) input = POk u ->
+        full_base dbg spec_host_serializer u su).
+Proof.
+  intros input b sb Hu Hb Hc. unfold in_file_base_arms in Hc.
+  repeat (apply orb_true_iff in Hc; destruct Hc as [Hc|Hc]).
+  - exact (class_file_rel_path_model dbg idna input b sb Hu Hb Hc).
+  - exact (class_file_same_path_model dbg idna input b sb Hu Hb Hc).
+  - exact (class_file_rel_one_model dbg idna input b sb Hu Hb Hc).
+  - exact (class_file_same_one_model dbg idna input b sb Hu Hb Hc).
+  - exact (class_file_rel_drive_model dbg idna input b sb Hu Hb Hc).
+  - exact (class_file_same_drive_model dbg idna input b sb Hu Hb Hc).
+  - apply (class_file_one_carry_model dbg idna input b sb Hu Hb). rewrite Hc. reflexivity.
+  - apply (class_file_one_carry_model dbg idna input b sb Hu Hb). rewrite Hc. apply orb_true_r.
+Qed.
